@@ -118,7 +118,7 @@ def locate(doc, segs):
 def rand_path(rng, doc, want=None):
     """a path text; `want`: python type(s) the addressed value should have, when one exists"""
     r = rng.random()
-    if r < 0.08:
+    if r < 0.04:
         return rng.choice(["$.zz", "$.a[9]", "$.o.nope", "$$.Nope"])
     if r < 0.16:
         return rng.choice(["$$.Execution.Id", "$$.State.Name", "$$.Execution.Input.k", "$$.Execution.Input.k[1]"])
@@ -135,7 +135,7 @@ def rand_path(rng, doc, want=None):
 
 
 def rand_scalar(rng, doc, depth):
-    r = rng.random()
+    r = rng.random() if depth <= 0 else rng.random() * 1.6
     if r < 0.3:
         return S(rand_str(rng))
     if r < 0.5:
@@ -152,7 +152,7 @@ def rand_scalar(rng, doc, depth):
 
 
 def rand_array(rng, doc, depth):
-    r = rng.random()
+    r = rng.random() if depth <= 0 else 0.2 + rng.random() * 0.8
     if r < 0.35 or depth <= 0:
         return P(rand_path(rng, doc, list))
     if r < 0.7:
@@ -304,7 +304,7 @@ def rand_template(rng, doc, depth, call_depth):
                                     rng if rng.random() < 0.2 else None)
         elif r < 0.85 and depth > 0:
             t[k if rng.random() < 0.9 else k + ".$"] = rand_template(rng, doc, depth - 1, call_depth)
-        elif r < 0.95 and depth > 0:
+        elif r < 0.97 and depth > 0:
             items = []
             for _ in range(rng.randint(0, 3)):
                 q = rng.random()
@@ -448,27 +448,6 @@ def texts_random(case):
         (has_dollar_elem(case["template"]) and re.search(r"States\.(MathRandom|UUID)\b", pj(case["template"])))
 
 
-def fmt_container_arg(sep, case):
-    """a States.Format call that is given an array/object: the model prints JSON there, the
-    implementation Python's repr; the property does not say — value not compared"""
-    return any("States.Format" in s for s in texts_of(case["template"])) and case.get("_fmtc", False)
-
-
-def mark_fmt_container(ast, doc):
-    """syntactic over-approximation: a Format argument that is a path to a container or a call
-    of a function that may return one"""
-    for c in calls_in(ast):
-        if c["f"] == "States.Format":
-            for x in c["a"][1:]:
-                if "f" in x and x["f"] not in ("States.MathAdd", "States.ArrayLength", "States.Base64Encode",
-                                               "States.JsonToString", "States.Format", "States.Hash",
-                                               "States.Base64Decode", "States.UUID", "States.MathRandom"):
-                    return True
-                if "p" in x:
-                    return True          # decided on the value below
-    return False
-
-
 def gen_cases(chk, quick):
     rng = chk.rng
     cases = []
@@ -476,7 +455,7 @@ def gen_cases(chk, quick):
         cases.append(dict(c, stream="corpus"))
     ncorpus = len(cases)
     # one `.$` member holding one generated call: every function, nesting depth 1..4
-    n = 9000 if quick else 400000
+    n = 54000 if quick else 900000
     for j in range(n):
         doc = make_input(rng)
         fn = FUNCS[j % len(FUNCS)]
@@ -487,7 +466,7 @@ def gen_cases(chk, quick):
                       "plain": text == print_arg(ast)})
     ncall = len(cases) - ncorpus
     # whole templates
-    n = 2500 if quick else 100000
+    n = 12000 if quick else 200000
     for j in range(n):
         doc = make_input(rng) if rng.random() < 0.9 else rng.choice([None, {}, [], 5, "s", [1, 2]])
         d = doc if isinstance(doc, dict) else {}
@@ -516,7 +495,7 @@ def gen_cases(chk, quick):
     for text in fixed:
         cases.append({"input": {"n": 5, "a": [[1], 2]}, "ctx": CTX, "template": {"r.$": text}, "stream": "malformed"})
         nm += 1
-    for j in range(1200 if quick else 40000):
+    for j in range(6000 if quick else 100000):
         doc = make_input(rng)
         text = print_arg(rand_call(rng, doc, rng.randint(1, 3)))
         for _ in range(rng.randint(1, 2)):
